@@ -489,6 +489,11 @@ func (r *Run) binop(op token.Token, x, y Value, xt, yt types.Type) Value {
 			if yp, ok := y.(UPtr); ok && op == token.SUB && yp.P.Obj == up.P.Obj {
 				return ts.Const(64, uint64(up.P.Off-yp.P.Off))
 			}
+		case token.XOR, token.OR:
+			// internal/abi.NoEscape and friends: x ^ 0
+			if yy, ok := y.(*Term); ok && yy.IsConst() && yy.Val == 0 {
+				return up
+			}
 		case token.EQL, token.NEQ:
 			res := false
 			switch yy := y.(type) {
